@@ -30,11 +30,42 @@ impl State {
     }
 }
 
-// `new` was reached from `old` by recorded mutations that the last n undo steps take back exactly
+// `new` was reached from `a` by recorded mutations that the last n undo steps take back exactly
+// (weak frame: says nothing about fields outside machine state, log and stack bases)
+spec fn rev_w(a: &State, new: &State, n: nat) -> bool {
+    &&& new.rec() == a.rec()
+    &&& new.bases() == a.bases()
+    &&& a.rec() ==> undo_n(new.mach(), new.log(), new.bases(), n) == Some((a.mach(), a.log()))
+}
+
+// the same with the strong frame of a primitive: nothing but machine state and log differs
 spec fn rev(old: &State, new: &State, n: nat) -> bool {
     &&& new.rest_eq(old)
-    &&& new.rec() == old.rec()
-    &&& old.rec() ==> undo_n(new.mach(), new.log(), new.bases(), n) == Some((old.mach(), old.log()))
+    &&& rev_w(old, new, n)
+}
+
+// extension: whatever reached `old` in k undo steps reaches `new` in k + j
+spec fn rev_ext(old: &State, new: &State, j: nat) -> bool {
+    forall|a: State, k: nat| #[trigger] rev_w(&a, old, k) ==> rev_w(&a, new, k + j)
+}
+
+proof fn lemma_rev_trans(a: State, b: State, c: State, n: nat, m: nat)
+    requires rev_w(&a, &b, n), rev_w(&b, &c, m)
+    ensures rev_w(&a, &c, n + m)
+{
+    if a.rec() {
+        lemma_undo_n_add(c.mach(), c.log(), c.bases(), m, n);
+        assert(m + n == n + m);
+    }
+}
+
+proof fn lemma_rev_ext(old: State, new: State, j: nat)
+    requires rev_w(&old, &new, j)
+    ensures rev_ext(&old, &new, j)
+{
+    assert forall|a: State, k: nat| #[trigger] rev_w(&a, &old, k) implies rev_w(&a, &new, k + j) by {
+        lemma_rev_trans(a, old, new, k, j);
+    }
 }
 
 // a primitive that succeeded: invariant kept, frame kept, machine is `m`, and n undo steps go back
@@ -42,6 +73,16 @@ spec fn stepped(old: &State, new: &State, m: Mach, n: nat) -> bool {
     &&& new.inv()
     &&& new.mach() == m
     &&& rev(old, new, n)
+    &&& rev_ext(old, new, n)
+}
+
+// an instruction that completed: the log ends with SetIp(ip before), and below it n undo steps
+// lead back to the machine and log `a` had
+spec fn insn_rev(a: &State, new: &State, n: nat) -> bool {
+    &&& new.rec() == a.rec()
+    &&& new.bases() == a.bases()
+    &&& a.rec() ==> new.log().len() > 0 && new.log().last() == ReverseStep::SetIp(a.ctx.ip)
+            && undo_n(Mach { ip: a.ctx.ip, ..new.mach() }, new.log().drop_last(), new.bases(), n) == Some((a.mach(), a.log()))
 }
 
 // set_ip / next_ip: the instruction terminator; undoing the recorded SetIp restores the old ip
@@ -53,6 +94,24 @@ spec fn ip_stepped(old: &State, new: &State, new_ip: usize) -> bool {
     &&& old.rec() ==> new.log() == old.log().push(ReverseStep::SetIp(old.ctx.ip))
     &&& !old.rec() ==> new.log() == old.log()
     &&& undo(new.mach(), new.bases(), ReverseStep::SetIp(old.ctx.ip)) == Some((old.mach(), Seq::<ReverseStep>::empty()))
+    &&& forall|a: State, k: nat| #[trigger] rev_w(&a, old, k) ==> insn_rev(&a, new, k)
+}
+
+proof fn lemma_ip_ext(old: State, new: State, new_ip: usize)
+    requires
+        new.rec() == old.rec(), new.bases() == old.bases(),
+        new.mach() == (Mach { ip: new_ip, ..old.mach() }),
+        old.rec() ==> new.log() == old.log().push(ReverseStep::SetIp(old.ctx.ip)),
+    ensures forall|a: State, k: nat| #[trigger] rev_w(&a, &old, k) ==> insn_rev(&a, &new, k)
+{
+    assert forall|a: State, k: nat| #[trigger] rev_w(&a, &old, k) implies insn_rev(&a, &new, k) by {
+        if a.rec() {
+            lemma_undo_n_ip(old.mach(), old.log(), old.bases(), k);
+            assert(a.ctx.ip == old.ctx.ip);
+            assert(new.log().drop_last() =~= old.log());
+            assert((Mach { ip: a.ctx.ip, ..new.mach() }) == old.mach());
+        }
+    }
 }
 
 // nothing observable changed (Vec fields are compared by their contents)
@@ -62,9 +121,14 @@ spec fn same(old: &State, new: &State) -> bool {
     &&& new.mach() == old.mach()
     &&& new.log() == old.log()
     &&& new.return_stack@ == old.return_stack@
+    &&& rev_ext(old, new, 0)
 }
 
 // exactly these entries were appended to the reverse log (nothing when not recording)
 spec fn logged(old: &State, new: &State, sfx: Seq<ReverseStep>) -> bool {
     new.log() == (if old.rec() { old.log() + sfx } else { old.log() })
+}
+
+spec fn insn_ext(old: &State, new: &State, n: nat) -> bool {
+    forall|a: State, k: nat| #[trigger] rev_w(&a, old, k) ==> insn_rev(&a, new, k + n)
 }
